@@ -316,6 +316,10 @@ def fresh_rules(run, db, rule='C01.cache'):
     hits = memo_inplace(db, mods)
     for fi, st, callee in hits:
         run.finding(rule, fi.qual, norm_stmt(st), 'in-place operation on the result of the memoised function %s: every later call that receives the same cached array sees the modification (results depend on call history)' % callee.qual, fi.loc(st))
+    from .purity import memo_completeness
+    for fi, st, memo, missing in memo_completeness(db, mods):
+        run.check(not missing, rule, fi.qual, 'memo %s' % memo, 'module-level memo %s is keyed by every input its fill reads' % memo,
+                  'the memo %s is filled from %s, which its key does not contain (results depend on call history)' % (memo, missing), fi.loc(st))
     n = 0
     for q in ('prysm.fttools.fftrange', 'prysm.fttools.fftfreq', 'prysm.fttools.forward_ft_unit', 'prysm.coordinates.make_xy_grid'):
         fi = db.func(q)
